@@ -12,8 +12,11 @@ pub enum Family {
     C05,
     C06,
     C08,
+    C11,
+    C12,
     C13,
     C14,
+    C16,
 }
 
 impl Family {
@@ -24,8 +27,11 @@ impl Family {
             "C05" => Family::C05,
             "C06" => Family::C06,
             "C08" => Family::C08,
+            "C11" => Family::C11,
+            "C12" => Family::C12,
             "C13" => Family::C13,
             "C14" => Family::C14,
+            "C16" => Family::C16,
             _ => return None,
         })
     }
@@ -36,13 +42,27 @@ impl Family {
             Family::C05 => "C05",
             Family::C06 => "C06",
             Family::C08 => "C08",
+            Family::C11 => "C11",
+            Family::C12 => "C12",
             Family::C13 => "C13",
             Family::C14 => "C14",
+            Family::C16 => "C16",
         }
     }
 }
 
-pub const ALL_FAMILIES: &[Family] = &[Family::C03, Family::C04, Family::C05, Family::C06, Family::C08, Family::C13, Family::C14];
+pub const ALL_FAMILIES: &[Family] = &[
+    Family::C03,
+    Family::C04,
+    Family::C05,
+    Family::C06,
+    Family::C08,
+    Family::C11,
+    Family::C12,
+    Family::C13,
+    Family::C14,
+    Family::C16,
+];
 
 pub fn generate(f: Family, ch: &mut Choices) -> Plan {
     match f {
@@ -51,8 +71,11 @@ pub fn generate(f: Family, ch: &mut Choices) -> Plan {
         Family::C05 => gen_outbound(OutKind::C05, ch),
         Family::C06 => gen_outbound(OutKind::C06, ch),
         Family::C08 => gen_outbound(OutKind::C08, ch),
+        Family::C11 => gen_c11(ch),
+        Family::C12 => gen_c12(ch),
         Family::C13 => gen_outbound(OutKind::C13, ch),
         Family::C14 => gen_outbound(OutKind::C14, ch),
+        Family::C16 => gen_c16(ch),
     }
 }
 
@@ -108,6 +131,7 @@ pub fn base_plan(family: &'static str, role: Role, ch: &mut Choices) -> Plan {
             ack_codes: Vec::new(),
             pubcomp_any_order: false,
             long_acks: false,
+            skip_connect: false,
         },
         senders: Vec::new(),
         p_immediate: 0,
@@ -464,5 +488,194 @@ fn gen_outbound(kind: OutKind, ch: &mut Choices) -> Plan {
     }
     plan.ending = Ending::Settle;
     plan.max_steps = 12_000;
+    plan
+}
+
+// ------------------------------------------------------------------------------------------
+// C11: inbound packet identifiers stay reserved until acknowledged
+
+fn gen_c11(ch: &mut Choices) -> Plan {
+    let role = pick_role(ch);
+    let ver = role.ver();
+    let mut plan = base_plan("C11", role, ch);
+    plan.cut = *ch.pick(&[Cut::All, Cut::Random]);
+    plan.p_immediate = *ch.pick(&[0u32, 0, 200, 500]);
+    // negative acks are one of the ack paths that must release the id (v5)
+    plan.w_outcome = *ch.pick(&[[1u32, 0, 0], [6, 3, 0]]);
+    let client_q2 = role.is_server() || ch.chance(1, 2);
+    let n = 2 + ch.choose(8);
+    let mut q2_ids: Vec<u16> = Vec::new();
+    for i in 0..n {
+        let pid = 1 + ch.choose(3) as u16;
+        let wsub = if role.is_server() { 15 } else { 0 };
+        match ch.weighted(&[50, wsub, wsub, 20]) {
+            0 => {
+                let qos = if client_q2 { 1 + ch.choose(2) as u8 } else { 1 };
+                let plen = ch.choose(6) as usize;
+                let mut p = mk_publish(ver, ch, i, qos, Some(pid), plen);
+                p.dup = false;
+                plan.peer.script.push(step(Pkt::Publish(p), ver, Pre::Connected));
+                if qos == 2 {
+                    q2_ids.push(pid);
+                }
+            }
+            1 => {
+                let sb = rc::Subscribe { pid, props: Vec::new(), filters: vec![(format!("f/{i}"), 1)] };
+                plan.peer.script.push(step(Pkt::Subscribe(sb), ver, Pre::Connected));
+            }
+            2 => {
+                let sb = rc::Unsubscribe { pid, props: Vec::new(), filters: vec![format!("f/{i}")] };
+                plan.peer.script.push(step(Pkt::Unsubscribe(sb), ver, Pre::Connected));
+            }
+            _ => {
+                // PUBREL: mostly for an id with a QoS2 exchange under way, sometimes for a stray id
+                let id = if !q2_ids.is_empty() && ch.chance(3, 4) { *ch.pick(&q2_ids) } else { pid };
+                let pre = if ch.chance(1, 2) { Pre::SawPubRec(id, 1) } else { Pre::Connected };
+                plan.peer.script.push(step(Pkt::PubRel(Ack::ok(id)), ver, pre));
+            }
+        }
+    }
+    plan.ending = Ending::Settle;
+    plan
+}
+
+// ------------------------------------------------------------------------------------------
+// C12: inbound concurrency limits hold and never wedge the connection
+
+fn gen_c12(ch: &mut Choices) -> Plan {
+    let role = pick_role(ch);
+    let ver = role.ver();
+    let mut plan = base_plan("C12", role, ch);
+    plan.cfg.max_receive = *ch.pick(&[1u16, 2, 3, 4, 0]);
+    plan.cfg.max_receive_size = *ch.pick(&[65535usize, 0, 60, 300]);
+    if role == Role::C5 {
+        plan.cfg.client_receive_max = plan.cfg.max_receive;
+    }
+    plan.cfg.min_chunk = *ch.pick(&[32 * 1024u32, 0, 16]);
+    plan.cfg.max_payload_buf = *ch.pick(&[32 * 1024usize, 64]);
+    plan.p_immediate = *ch.pick(&[0u32, 300]);
+    plan.w_payload = *ch.pick(&[[1u32, 0, 0], [3, 2, 0]]);
+    // v5: does the peer respect the advertised Receive Maximum?
+    let respect = ch.chance(2, 3);
+    let n = 2 + ch.choose(9);
+    let burst = ch.chance(1, 2);
+    let rm = plan.cfg.max_receive;
+    for i in 0..n {
+        let qos = if role.is_server() || ch.chance(1, 2) { ch.choose(3) as u8 } else { ch.choose(2) as u8 };
+        let len = match ch.choose(4) {
+            0 => ch.choose(8) as usize,
+            1 => 40 + ch.choose(40) as usize,
+            2 => 250 + ch.choose(100) as usize,
+            _ => 2000,
+        };
+        let pid = if qos > 0 { Some(10 + i as u16) } else { None };
+        let mut p = mk_publish(ver, ch, i, qos, pid, len);
+        p.dup = false;
+        // a peer that respects the limit waits for the final ack of an earlier publish first
+        let pre = if ver == Ver::V5 && respect && rm != 0 && qos > 0 && !burst {
+            Pre::WindowBelow(rm)
+        } else if ver == Ver::V5 && respect && rm != 0 && qos > 0 {
+            Pre::WindowBelow(rm)
+        } else {
+            Pre::Connected
+        };
+        plan.peer.script.push(step(Pkt::Publish(p), ver, pre));
+        if qos == 2 && ch.chance(2, 3) {
+            plan.peer.script.push(step(Pkt::PubRel(Ack::ok(pid.unwrap())), ver, Pre::SawPubRec(pid.unwrap(), 1)));
+        }
+    }
+    plan.ending = Ending::Settle;
+    plan.max_steps = 15_000;
+    plan
+}
+
+// ------------------------------------------------------------------------------------------
+// C16: no sequence of well-formed peer packets can panic or hang an endpoint
+
+pub fn template(ver: Ver, server_ep: bool, ch: &mut Choices, i: u32) -> Pkt {
+    let pid = 1 + ch.choose(3) as u16;
+    let v5 = ver == Ver::V5;
+    let plen = ch.choose(5) as usize;
+    // what a peer may send to a server endpoint / to a client endpoint, plus everything else
+    // that is well-formed for the version (unexpected direction included)
+    match ch.choose(if v5 { 17 } else { 15 }) {
+        0 => Pkt::Publish(mk_publish(ver, ch, i, 0, None, plen)),
+        1 => Pkt::Publish(mk_publish(ver, ch, i, 1, Some(pid), plen)),
+        2 => Pkt::Publish(mk_publish(ver, ch, i, 2, Some(pid), plen)),
+        3 => Pkt::PubAck(Ack::ok(pid)),
+        4 => Pkt::PubRec(Ack::ok(pid)),
+        5 => Pkt::PubRel(Ack::ok(pid)),
+        6 => Pkt::PubComp(Ack::ok(pid)),
+        7 => Pkt::Subscribe(rc::Subscribe { pid, props: Vec::new(), filters: vec![(format!("f/{i}"), 1)] }),
+        8 => Pkt::SubAck(rc::SubAck { pid, props: Vec::new(), codes: vec![0] }),
+        9 => Pkt::Unsubscribe(rc::Unsubscribe { pid, props: Vec::new(), filters: vec![format!("f/{i}")] }),
+        10 => Pkt::UnsubAck(rc::SubAck { pid, props: Vec::new(), codes: if v5 { vec![0] } else { Vec::new() } }),
+        11 => Pkt::PingReq,
+        12 => Pkt::PingResp,
+        13 => Pkt::Disconnect(rc::Disconnect { code: 0, props: Vec::new() }),
+        14 => {
+            if server_ep {
+                Pkt::Connect(Connect::new(ver, "c0", 60_000))
+            } else {
+                Pkt::ConnAck(rc::ConnAck { session_present: false, code: 0, props: Vec::new() })
+            }
+        }
+        15 => Pkt::Auth(rc::Disconnect { code: 0x18, props: vec![(21, PropVal::Str("m".into()))] }),
+        _ => Pkt::Disconnect(rc::Disconnect { code: 0x04, props: Vec::new() }),
+    }
+}
+
+fn gen_c16(ch: &mut Choices) -> Plan {
+    let role = pick_role(ch);
+    let ver = role.ver();
+    let mut plan = base_plan("C16", role, ch);
+    plan.p_immediate = *ch.pick(&[1000u32, 0, 500]);
+    plan.w_payload = *ch.pick(&[[1u32, 0, 0], [3, 2, 1]]);
+    plan.cfg.min_chunk = *ch.pick(&[32 * 1024u32, 0, 2]);
+    // busy application state: outstanding sends of every kind
+    if ch.chance(1, 2) {
+        let n = 1 + ch.choose(3);
+        for _ in 0..n {
+            let mut ops = Vec::new();
+            match ch.choose(5) {
+                0 => ops.push(AppOp::PubQ1 { len: 3, pid: None }),
+                1 => {
+                    ops.push(AppOp::PubQ2 { len: 3, pid: None });
+                    ops.push(AppOp::Release);
+                }
+                2 => {
+                    if role.is_server() {
+                        ops.push(AppOp::PubQ1 { len: 1, pid: None });
+                    } else {
+                        ops.push(AppOp::Subscribe { n: 1, pid: None });
+                    }
+                }
+                3 => ops.push(AppOp::StreamQ1 { size: 10, chunks: vec![4, 6], pid: None }),
+                _ => ops.push(AppOp::Ready),
+            }
+            plan.senders.push(ops);
+        }
+        // the peer does not acknowledge on its own: whatever acks arrive are the random ones
+        plan.peer.auto_ack = ch.chance(1, 2);
+    }
+    let before_handshake = ch.chance(1, 6);
+    let n = 1 + ch.weighted(&[30, 25, 15, 10, 8, 6, 4, 2]) as u32;
+    for i in 0..n {
+        let p = template(ver, role.is_server(), ch, i);
+        let pre = if before_handshake && i == 0 { Pre::None } else { Pre::Connected };
+        plan.peer.script.push(step(p, ver, pre));
+    }
+    if before_handshake && role.is_server() {
+        // the first packet replaces CONNECT
+        plan.peer.skip_connect = true;
+    }
+    // liveness probe at the end: a request every live connection must answer
+    let probe = if role.is_server() {
+        Pkt::PingReq
+    } else {
+        Pkt::Publish(rc::Publish { dup: false, qos: 1, retain: false, topic: "probe".into(), pid: Some(0x6001), props: Vec::new(), payload: vec![1] })
+    };
+    plan.peer.script.push(step(probe, ver, Pre::Connected));
+    plan.ending = Ending::Settle;
     plan
 }
